@@ -280,10 +280,11 @@ def run(prop, tier):
     if not vlib.SKIP_MC:
         model_checks(chk, tier)
     run_naming(chk, tier)
-    nruns = 48 if tier == "quick" else 900
+    nruns = 48 if tier == "quick" else 600
     run_recorded(chk, nruns, chk.seed)
-    if chk.extra.get("readouts_started_while_updates_in_flight", 0) < nruns:
-        raise vlib.ToolError("the recorded runs hardly ever read out while updates were in flight (vacuous)")
+    racing, conc = chk.extra.get("readouts_started_while_updates_in_flight", 0), chk.extra.get("concurrent_readouts", 0)
+    if racing < nruns or racing * 4 < conc:
+        raise vlib.ToolError(f"only {racing} of {conc} readouts started while updates were in flight (vacuous runs)")
     return chk.finish()
 
 
